@@ -25,6 +25,7 @@ ASSUMPTIONS = [
     "scipy.signal.decimate/detrend/butter/sosfiltfilt are the reference operations (trusted)",
     "Wn and breakpoints are computed from the model's current fs/length, so a stale fs in the implementation changes the filter it designs",
     "events ('bad', ...): a preprocessing call with an illegal argument (q=2.0, ftype='FIR', btype='lowpas', type='quadratic') that raises and is caught by the user; the model is left unchanged by it, and so must the setup be (data, sampling attributes, what later add_algorithms calls hand over). If a tree accepts the argument instead of raising, the history is counted as not judged",
+    "event ('rt',): the setup object is replaced by its deepcopy / pickle round trip / save_to_file+load_from_file round trip / shallow copy (rotating with the position in the history) and the history continues on the returned object, judged against the same model (in particular a later rollback must restore the INITIAL data); files go to /root/scratch and are removed at once",
     "the duration attribute after a decimation is a listed known finding (pinned by three existing tests); every other duration mismatch is a violation",
 ]
 
@@ -45,6 +46,9 @@ QUICK_EVENTS = [
     # a call with an illegal argument that raises and is caught by the user: the setup must be left exactly as it was
     ("bad", "dec-q-float"),
     ("bad", "fil-btype"),
+    # the setup object goes through a round trip (deepcopy / pickle / save_to_file+load_from_file / copy, by rotation) and the
+    # history continues on the object that came back: it must be the same setup (data, attributes, initial copies for rollback)
+    ("rt",),
 ]
 MORE_EVENTS = [
     ("bad", "dec-ftype"),
@@ -151,8 +155,8 @@ class Model:
             self.reset()
         elif ev[0] == "add":
             self.probes.append((self.fs, [d.copy() for d in self.ds]))
-        elif ev[0] == "bad":
-            pass                       # a rejected call changes nothing
+        elif ev[0] in ("bad", "rt"):
+            pass                       # a rejected call changes nothing; neither does a round trip of the object
 
     def wn(self, ev):
         w = ev[2]
@@ -190,6 +194,11 @@ def probe_cls():
             def mpe_from_plot(self, *a, **k):
                 return None
 
+        # picklable: the classes are registered under module-level names (the round-trip event pickles setups that hold probes)
+        for c in (ProbeParams, ProbeResult, Probe):
+            c.__qualname__ = c.__name__
+            c.__module__ = __name__
+            globals()[c.__name__] = c
         _PROBE = Probe
     return _PROBE
 
@@ -240,6 +249,30 @@ def impl_apply(o, ev, m, nprobe, form=0):
         except Exception:
             return "raised"            # ... and the user catches it
         return "accepted"
+
+
+def round_trip(o, form):
+    import copy
+    import os
+    import pickle
+    import tempfile
+
+    k = form % 4
+    if k == 0:
+        return copy.deepcopy(o)
+    if k == 1:
+        return pickle.loads(pickle.dumps(o))
+    if k == 2:
+        from pyoma2.functions import gen
+
+        fd, path = tempfile.mkstemp(suffix=".pkl", dir=os.environ.get("VERIF_SCRATCH", "/root/scratch"))
+        os.close(fd)
+        try:
+            gen.save_to_file(o, path)
+            return gen.load_from_file(path)
+        finally:
+            os.remove(path)
+    return copy.copy(o)
 
 
 # calls with an illegal argument (scipy rejects each of them on every record of the lattice)
@@ -366,7 +399,13 @@ def run_history(kind_idx, kind, events, hist, seed, judge_all=False):
         except Exception as e:
             mexc = e
         try:
-            how = impl_apply(o, ev, m, nprobe, form=step + len(evs))
+            if ev[0] == "rt":
+                o = round_trip(o, step + len(evs))
+                how = None
+                if judge:
+                    t.outcomes["round-trip"] += 1
+            else:
+                how = impl_apply(o, ev, m, nprobe, form=step + len(evs))
             iexc = None
         except Exception as e:
             iexc = e
@@ -482,7 +521,7 @@ def explore(ctx):
         for ki, kind in enumerate(kinds[:4]):
             _CFG.update(kind_idx=ki, kind=kind, events=events5, seed=ctx.seed)
             bfs.merged(ctx, _runner, len(events5), 5, label=f"d5/{kind[0]}{len(kind[1])}/")
-    ctx.require("agree", "rollback", "both-reject" if ctx.thorough else "agree", "rejected-call-caught")
+    ctx.require("agree", "rollback", "both-reject" if ctx.thorough else "agree", "rejected-call-caught", "round-trip")
 
 
 def replay(case):
